@@ -441,7 +441,17 @@ func sameHeaps(a, b map[string]string) bool {
 // havocLoop gives fresh versions to every heap family the loop body may write.
 func (fg *FG) havocLoop(h *ssa.BasicBlock, st *State) {
 	fams := fg.loopModFamilies(h)
+	if fg.loopHavoc == nil {
+		fg.loopHavoc = map[int]map[string]bool{}
+	}
+	done := map[string]bool{}
+	fg.loopHavoc[h.Index] = done
+	fg.inHavoc = true
+	defer func() { fg.inHavoc = false }()
 	for _, f := range sortedKeys(fams) {
+		if _, ok := fg.heapSort[f]; ok || f == "$alloc" {
+			done[f] = true
+		}
 		if f == "$alloc" {
 			a := fg.heap(st, "$alloc", "Int")
 			na := fg.havocHeap(st, "$alloc")
@@ -562,6 +572,17 @@ func (fg *FG) allocFamilies(v ssa.Value, fams map[string]bool) {
 			for k := range fg.g.ct.GhostDefaults {
 				if strings.HasPrefix(k, "any.") {
 					fam := "G_any_" + sanitize(strings.TrimPrefix(k, "any."))
+					if _, has := fg.heapSort[fam]; !has {
+						// materialise the family now so that the loop head can havoc it
+						if ty, ok := fg.g.ct.GhostFields[k]; ok {
+							env := &Env{fg: fg, vars: map[string]Val{}, st: &State{heaps: map[string]string{}}}
+							t, srt := env.resolveType(ty)
+							if t != nil {
+								srt = fg.sorts.sortOf(t)
+							}
+							fg.heapSort[fam] = "(Array Int " + srt + ")"
+						}
+					}
 					if _, has := fg.heapSort[fam]; has {
 						fams[fam] = true
 					}
@@ -679,35 +700,169 @@ func (fg *FG) callFamilies(cc *ssa.CallCommon, fams map[string]bool) {
 	}
 	var c *Contract
 	var callee *ssa.Function
+	ckey := ""
 	if cc.IsInvoke() {
-		c = fg.g.ct.C[fg.g.ifaceKey(cc.Value.Type(), cc.Method.Name())]
+		ckey = fg.g.ifaceKey(cc.Value.Type(), cc.Method.Name())
+		c = fg.g.ct.C[ckey]
 		if c == nil {
 			c = fg.g.findIfaceContract(cc.Value.Type(), cc.Method.Name())
 		}
 	} else if callee = cc.StaticCallee(); callee != nil {
+		ckey = fg.g.keyOf(callee)
 		c = fg.g.contractFor(callee)
+	} else if mc, ok := cc.Value.(*ssa.MakeClosure); ok {
+		callee = mc.Fn.(*ssa.Function)
+		ckey = fg.g.keyOf(callee)
+		c = fg.g.contractFor(callee)
+	} else {
+		// call through a function value: its function-type contract, if one is declared
+		name := fg.funcValueName(cc.Value)
+		mode := ""
+		if fg.c != nil {
+			mode = fg.c.FuncTypes[name]
+		}
+		if mode == "" {
+			mode = fg.g.fieldFuncType(cc.Value)
+		}
+		if mode != "" && mode != "pure" {
+			c = fg.g.ct.C[mode]
+			if c == nil && fg.c != nil {
+				c = fg.g.ct.C[fg.c.Pkg+"."+mode]
+			}
+		}
+		if c == nil {
+			if nt, ok := types.Unalias(cc.Value.Type()).(*types.Named); ok && nt.Obj().Pkg() != nil {
+				c = fg.g.ct.C[nt.Obj().Pkg().Name()+"."+nt.Obj().Name()]
+			}
+		}
+		if c == nil && mode != "pure" {
+			// a closure value whose target is only known at translation time: be conservative about
+			// what the enclosing function's closures may write
+			for _, af := range fg.fn.AnonFuncs {
+				if ac := fg.g.contractFor(af); ac != nil {
+					fg.contractFamilies(ac, af, nil, fams)
+				}
+			}
+		}
 	}
-	if c == nil {
-		// dynamic pure call or unknown: handled (or rejected) at translation time; pure calls write nothing
+	// specialisation by the dynamic type of an interface argument (key<T>), as in the call rule
+	if ckey != "" {
+		for _, a := range cc.Args {
+			if mi, ok := a.(*ssa.MakeInterface); ok {
+				k := ckey + "<" + types.TypeString(mi.X.Type(), func(p *types.Package) string { return p.Name() }) + ">"
+				if sc := fg.g.ct.C[k]; sc != nil {
+					c = sc
+					break
+				}
+			}
+		}
+	}
+	// interior addresses passed to a callee that writes memory: the callee writes through them
+	if c == nil || len(c.Modifies) > 0 || !c.ModGiven {
+		for _, a := range cc.Args {
+			switch a.(type) {
+			case *ssa.FieldAddr, *ssa.IndexAddr:
+				for _, f := range fg.addrFamilies(a) {
+					fams[f] = true
+				}
+			}
+		}
+	}
+	// "callsonce f": the callee stands for one call of the closure f
+	if c != nil && c.CallsOnce != "" {
+		for _, a := range cc.Args {
+			for {
+				if ct, ok := a.(*ssa.ChangeType); ok {
+					a = ct.X
+					continue
+				}
+				break
+			}
+			if mc, ok := a.(*ssa.MakeClosure); ok {
+				cf := mc.Fn.(*ssa.Function)
+				if cfc := fg.g.contractFor(cf); cfc != nil {
+					fg.contractFamilies(cfc, cf, nil, fams)
+				} else {
+					fg.bodyFamilies(cf, fams, 0)
+				}
+			}
+		}
 		return
 	}
+	if c == nil {
+		// no contract: a small in-repo function that the call rule inlines writes what its body writes
+		if callee != nil && callee.Blocks != nil && fg.g.inRepo(callee) {
+			fg.bodyFamilies(callee, fams, 0)
+		}
+		return
+	}
+	fg.contractFamilies(c, callee, cc, fams)
+}
+
+// bodyFamilies collects the heap families the body of an (inlined) function may write.
+func (fg *FG) bodyFamilies(fn *ssa.Function, fams map[string]bool, depth int) {
+	if depth > 4 {
+		return
+	}
+	for _, b := range fn.Blocks {
+		for _, in := range b.Instrs {
+			switch x := in.(type) {
+			case *ssa.Store:
+				for _, f := range fg.addrFamilies(x.Addr) {
+					fams[f] = true
+				}
+			case *ssa.MapUpdate:
+				m := types.Unalias(x.Map.Type()).Underlying().(*types.Map)
+				mv, ml := fg.mapFamilies(m)
+				fams[mv], fams[ml], fams[mapPresence(mv)] = true, true, true
+			case *ssa.Alloc, *ssa.MakeSlice, *ssa.MakeMap, *ssa.MakeChan, *ssa.MakeClosure:
+				fams["$alloc"] = true
+				fg.allocFamilies(x.(ssa.Value), fams)
+			case *ssa.Send:
+				fams["CH_len"] = true
+			case *ssa.Call:
+				fg.callFamilies(x.Common(), fams)
+			case *ssa.Defer:
+				fg.callFamilies(x.Common(), fams)
+			}
+		}
+	}
+}
+
+// contractFamilies: dry evaluation of a contract's modifies clause to obtain the families it names.
+func (fg *FG) contractFamilies(c *Contract, callee *ssa.Function, cc *ssa.CallCommon, fams map[string]bool) {
 	if len(c.Modifies) == 0 {
 		return
 	}
 	// dry evaluation of the modifies clause with dummy arguments to obtain the families
-	sig := cc.Signature()
-	names := fg.paramNames(c, callee, sig, cc.IsInvoke())
 	env := &Env{fg: fg, vars: map[string]Val{}, st: &State{heaps: map[string]string{}}}
 	if p := fg.g.pkgByName(c.Pkg); p != nil {
 		env.pkg = p
 	}
 	var argTys []types.Type
-	if cc.IsInvoke() {
-		argTys = append(argTys, cc.Value.Type())
+	var names []string
+	if cc != nil {
+		sig := cc.Signature()
+		names = fg.paramNames(c, callee, sig, cc.IsInvoke())
+		if cc.IsInvoke() {
+			argTys = append(argTys, cc.Value.Type())
+		}
+		for _, a := range cc.Args {
+			argTys = append(argTys, a.Type())
+		}
+	} else if callee != nil {
+		names = fg.paramNames(c, callee, callee.Signature, false)
+		for _, p := range callee.Params {
+			argTys = append(argTys, p.Type())
+		}
 	}
-	for _, a := range cc.Args {
-		argTys = append(argTys, a.Type())
+	// the caller's own parameters are visible to function-type contracts
+	for n, v := range fg.params {
+		if _, clash := env.vars[n]; !clash {
+			env.vars[n] = Val{T: "dummy", Ty: v.Ty, Sort: v.Sort}
+		}
 	}
+	env.vars["self"] = Val{T: "dummy", Sort: "Int"}
 	for i, n := range names {
 		if i < len(argTys) {
 			env.vars[n] = Val{T: "dummy", Ty: argTys[i]}
@@ -734,6 +889,10 @@ func (fg *FG) callFamilies(cc *ssa.CallCommon, fams map[string]bool) {
 		}()
 		for _, m := range fg.evalModifies(c, env) {
 			fams[m.loc.Heap] = true
+			if strings.HasPrefix(m.loc.Heap, "MV_") {
+				fams[mapPresence(m.loc.Heap)] = true
+				fams["ML_"+m.loc.Heap[3:]] = true
+			}
 		}
 	}()
 	fg.items = fg.items[:snapItems]
